@@ -1176,6 +1176,11 @@ def auth_matrix(rng, tier):
                 h.do(("pair_receive", p, c, [], USER0, 10, ("hwithdraw",)))
                 h.do(("pair_receive", p, c, [], USER0, 10, ("hswap", ("t", 2), 10, None, None, None)))
                 h.do(("pair_receive", p, c, [], USER0, 10, ("hgarbage",)))
+                if c < 1990 and h.bank(c, 0) >= 300:
+                    # a swap hook NAMING THE PAIR'S NATIVE ASSET, relayed by the caller itself with exactly those coins attached
+                    # (C14-agent22: such a "relay" authorised)
+                    h.do(("pair_receive", p, c, [(0, 50)], c, 50, ("hswap", ("n", 0), 50, None, None, None)))
+                    h.do(("pair_receive", p, c, [(0, 50)], USER0, 50, ("hswap", ("n", 0), 50, None, None, USER0)))
                 h.do(("router_op", c, [], ("n", 0), ("t", 2), None))
                 # the internal single-hop message "prepaid": exactly the offered coin attached, with and without a
                 # recipient, and the other shapes of funds (C14-agent14: a non-router caller accepted when the hop's own
@@ -1386,6 +1391,27 @@ def commission_histories(rng, tier):
                         continue
                     quote = h.query("sim %d %s %d" % (p, a_line(offer), amt))
                     other = h.pair_assets(p)[1 - i]
+                    if amt == 123457:
+                        # reverse quotes at the very top of the feasible range: the largest ask for which the closed form is
+                        # defined is floor(ask_reserve * (1 - c)); one below, at, one above (C12-agent22: refused at the top)
+                        c_ = h.pair(p, 10)
+                        top = r[1 - i] * (D - c_) // D
+                        for ask_amt in (top - 1, top, top + 1):
+                            if ask_amt > 0:
+                                h.query("revsim %d %s %d" % (p, a_line(other), ask_amt))
+                        # a swap with BOTH limits given and met (belief price at the quoted price, 50% spread limit): the
+                        # amounts it reports obey the same laws (C06-agent22: the reported spread replaced by the shortfall
+                        # against the belief price)
+                        if quote and quote[0] > 0:
+                            od, rd = h.pair(p, 5 + i), h.pair(p, 6 - i)
+                            onorm = amt * 10 ** (rd - od) if rd > od else amt
+                            rnorm = quote[0] * 10 ** (od - rd) if od > rd else quote[0]
+                            bp = min(max(1, onorm * D // rnorm), 2 ** 127)
+                            if offer[0] == "n":
+                                h.do(("swap", p, u, [(offer[1], amt)], offer, amt, bp, D // 2, None), quote)
+                            else:
+                                h.do(("send", offer[1], u, p, amt, ("hswap", offer, amt, bp, D // 2, None)), quote)
+                            quote = h.query("sim %d %s %d" % (p, a_line(offer), amt))
                     if offer[0] == "n" and other[0] == "n" and amt % 2 == 1 and h.bank(u, other[1]) > 0:
                         # the pair's other native coin rides along: it reaches the pool before the swap is priced
                         ex = min(h.bank(u, other[1]), max(1, r[1 - i] // 9))
@@ -1482,6 +1508,34 @@ def deep_pool_histories(rng, tier):
             h.do(("send", lp, USER0, p, h.bal(lp, USER0) // 2, ("hwithdraw",)))
         cases.append(h.finish())
     return cases
+
+
+def reverse_top_histories(rng, tier):
+    """reverse quotes at the very top of the feasible range on small pools (so that the answer, of the order of the reserve
+    product, fits 128 bits): asks floor(ask_reserve*(1-c)) - 1, exactly that, and + 1, both directions, three rates
+    (C12-agent22: the largest feasible ask refused by a guard that floors the bound and compares with >=)"""
+    h = Hist(2, 2, 2, 3, 10 ** 12, 1000, [6, 6], "directed-boundary", "reverse quotes at the top of the feasible range")
+    owner = h.owner()
+    for d in range(h.nd):
+        h.do(("fac_add_native", owner, d, 6))
+    specs = [((("n", 0), ("t", 2)), 3 * 10 ** 15, (2000000, 1000001)), ((("t", 2), ("t", 3)), 3 * 10 ** 16, (4000396, 9124100)),
+             ((("n", 0), ("n", 1)), 0, (1000003, 777777))]
+    for (a0, a1), c, (n0, n1) in specs:
+        before = set(h.pairs())
+        h.do(("fac_create_pair", owner, a0, a1, [USER0], 0, 0, c, None))
+        for p in [q for q in h.pairs() if q not in before]:
+            for a in h.pair_assets(p):
+                if a[0] == "t":
+                    h.do(("incr_allow", a[1], USER0, p, h.ubal))
+            b0, b1 = h.pair_assets(p)
+            h.do(("provide", p, USER0, funds_for([(b0, n0), (b1, n1)]), b0, n0, b1, n1, None, None))
+            for i in (0, 1):
+                ask = h.pair_assets(p)[i]
+                top = h.reserves(p)[i] * (D - c) // D
+                for ask_amt in (top - 2, top - 1, top, top + 1, h.reserves(p)[i]):
+                    h.query("revsim %d %s %d" % (p, a_line(ask), ask_amt))
+            h.do(("send", h.pair_lp(p), USER0, p, 10, ("hwithdraw",)))      # carries the queries
+    return [h.finish()]
 
 
 def rate_text_histories(rng, tier):
@@ -1770,6 +1824,21 @@ def swap_matrix(rng, tier):
                     else:
                         h.do(("swap", p, u, [(off[1], a)], off, a, None, None, rcv))
         cases.append(h.finish())
+    # dust offers on deep, balanced 18-decimals pools (inside the recorded rounding window: the pool pays out one unit for one
+    # unit, no commission): whatever the pair reports as returned is what leaves the pool and what the receiver gets
+    # (C02-agent22: a "the product must not shrink" guard paid one unit less than it reported, exactly in this window)
+    hw = Hist(3, 2, 2, 2, 10 ** 21, 1000, [18, 18], "corpus", "settlement of dust swaps inside the rounding window")
+    cw = setup_pairs(hw, rng, [(("n", 0), ("t", 2)), (("t", 2), ("t", 3))], comm=3 * 10 ** 15, provide=False, native_decs=[18, 18])
+    for p in cw:
+        a0, a1 = hw.pair_assets(p)
+        hw.do(("provide", p, USER0, funds_for([(a0, 10 ** 19), (a1, 10 ** 19)]), a0, 10 ** 19, a1, 10 ** 19, None, None))
+        for k, amt in enumerate((3, 1, 2, 1, 3)):
+            off = (a0, a1)[k % 2]
+            if off[0] == "n":
+                hw.do(("swap", p, USER0 + 1, [(off[1], amt)], off, amt, None, None, USER0 + 2))
+            else:
+                hw.do(("send", off[1], USER0 + 1, p, amt, ("hswap", off, amt, None, None, USER0 + 2)))
+    cases.append(hw.finish())
     return cases
 
 
